@@ -114,7 +114,11 @@ static void gen_addr(vh_rng_t *rng)
     ad_plan.dup_every           = 0;
   } else {
     int k = (int)vh_below(rng, 12);
-    if (k == 0) {
+    if (k == 3 || k == 4) {
+      /* hosts-file names that have addresses of both families */
+      snprintf(t->name, sizeof(t->name), "%s", k == 3 ? "dual.example.com" : "sixfirst.example.com");
+      ad_expect_kind = (app_cfg.lookups[0] == 'f') ? 4 : 0;
+    } else if (k == 0) {
       snprintf(t->name, sizeof(t->name), "hostfile.example.com");
       /* the file has an IPv4 address for it: files-first lookups for IPv4/any family never reach the network */
       ad_expect_kind = (app_cfg.lookups[0] == 'f' && t->family != AF_INET6) ? 1 : 0;
@@ -142,6 +146,40 @@ static void gen_addr(vh_rng_t *rng)
   s->rules[0].other_family = ad_plan.other_family;
   sim_answer_foreign_class_every = ad_plan.foreign_class_every;
   sim_answer_dup_every           = ad_plan.dup_every;
+}
+
+/* dual-family hosts entries: exactly the file's addresses of the requested family */
+static void ad_check_hosts_dual(app_tok_t *t, int require_no_network)
+{
+  static const uint8_t d4a[4] = { 10, 1, 2, 4 }, d4b[4] = { 10, 1, 2, 5 }, s4[4] = { 10, 1, 2, 6 };
+  static const uint8_t d6[16] = { 0xfd, 0x5e, 0, 0, 0, 0, 0, 0, 0, 0, 0, 0, 0, 0, 0, 8 };
+  static const uint8_t s6[16] = { 0xfd, 0x5e, 0, 0, 0, 0, 0, 0, 0, 0, 0, 0, 0, 0, 0, 9 };
+  int dual = !strcmp(t->name, "dual.example.com");
+  int want4 = (t->family != AF_INET6) ? (dual ? 2 : 1) : 0;
+  int want6 = (t->family != AF_INET) ? 1 : 0;
+  int got4 = 0, got6 = 0, i;
+  MON_EVAL("addr_hosts_dual_family");
+  if (require_no_network && sim_ntx != 0) {
+    vh_violation("addr:hosts-hit-went-to-network", "'%s' is in the hosts file, lookups '%s', but %d questions were sent", t->name,
+                 app_cfg.lookups, sim_ntx);
+    return;
+  }
+  for (i = 0; i < t->naddr; i++) {
+    int is4 = (t->addr_key[i] >> 28) == 4;
+    const uint8_t *a = t->addr_raw[i];
+    if (is4 && (dual ? (!memcmp(a, d4a, 4) || !memcmp(a, d4b, 4)) : !memcmp(a, s4, 4))) {
+      got4++;
+    } else if (!is4 && !memcmp(a, dual ? d6 : s6, 16)) {
+      got6++;
+    } else {
+      vh_violation("addr:hosts-address-invented", "'%s': returned an address that is not in the hosts file for that name", t->name);
+      return;
+    }
+  }
+  if (got4 != want4 || got6 != want6) {
+    vh_violation("addr:hosts-address-dropped", "'%s' family %d: hosts file has %d IPv4 and %d IPv6 addresses for the requested family, %d and %d returned",
+                 t->name, t->family, want4, want6, got4, got6);
+  }
 }
 
 static int ad_cmp_u32(const void *a, const void *b)
@@ -230,6 +268,10 @@ static void mon_addr(void)
     }
     return;
   }
+  if (ad_expect_kind == 4) {
+    ad_check_hosts_dual(t, 1);
+    return;
+  }
   if (ad_expect_kind == 2 || ad_expect_kind == 3) {
     MON_EVAL("addr_literal_or_loopback");
     if (sim_ntx != 0) {
@@ -298,6 +340,12 @@ static void mon_addr(void)
         }
       }
     }
+  }
+  if (nexp == 0 && strchr(app_cfg.lookups, 'f') && t->cb_status == ARES_SUCCESS &&
+      (!strcmp(t->name, "dual.example.com") || !strcmp(t->name, "sixfirst.example.com"))) {
+    /* DNS had nothing of the requested family: the hosts file is the fallback */
+    ad_check_hosts_dual(t, 0);
+    return;
   }
   MON_EVAL("addr_multiset");
   if (t->cb_status != ARES_SUCCESS) {
